@@ -50,7 +50,9 @@ Inductive cval :=
 Definition cobj := list (N * cval).
 
 (* ---- constants ------------------------------------------------------------------------------ *)
-Definition two64 : N := 18446744073709551616.        (* 2^64: unsigned long is 64 bit (LP64) *)
+(* UNSURE: (platform) unsigned long is taken to be 64 bit (LP64).  On an ILP32/LLP64 build the
+   file format is the same (always 8 bytes) but long_val() keeps only the low 32 bits. *)
+Definition two64 : N := 18446744073709551616.        (* 2^64 *)
 
 Definition BOOLEAN_ATTR : N := 1.                     (* ObjectFile.cpp:45-49 *)
 Definition ULONG_ATTR   : N := 2.
@@ -179,13 +181,16 @@ Definition read_bool (b : bytes) : option (bool * bytes) :=
   | [] => None
   end.
 
-(* File::readByteString: length, then fread of that many bytes (fails on a short read).
-   UNSURE: before the fread the C++ does value.resize(len) with the length taken from the file
+(* File::readByteString: length, then fread of that many bytes (fails on a short read). *)
+(* UNSURE: before the fread the C++ does value.resize(len) with the length taken from the file
    (File.cpp:231).  For a length that is larger than the rest of the file this model answers None
-   ("object invalid", which is what happens when the allocation succeeds and the fread comes back
-   short); the real code first allocates len bytes of (possibly mlock'ed) secure memory and for
-   very large len std::vector::resize throws std::length_error/std::bad_alloc, which nothing on
-   the refresh path catches.  This is finding F10 of the design notes, not modelled here. *)
+   ("object invalid").  That is what the real library does when the allocation succeeds and the
+   fread comes back short (checked on the /repo build: length field 1000 with 2 bytes following
+   -> the object is dropped).  For a large length the real code never gets that far: the
+   resize throws (std::length_error / std::bad_alloc), nothing on the refresh path catches it
+   and the process dies — checked on the /repo build with length fields 2^40, 2^62 and 2^64-1:
+   the host process exits with status 5 inside C_Initialize/C_FindObjects.  This is finding F10
+   of the design notes; the crash is NOT modelled here (None is returned). *)
 Definition read_bytes (b : bytes) : option (bytes * bytes) :=
   match read_ulong b with
   | None => None
@@ -249,8 +254,8 @@ Definition read_mapval (kind : N) (b : bytes) : option (cmapval * N * bytes) :=
 (* File::readAttributeMap, the [while (len != 0)] loop.  [fuel] bounds the number of entries
    (every entry consumes at least 17 bytes of the file, so the number of bytes left is ample).
    The C++ reads first and compares against [len] afterwards; both failures return false, so the
-   order is immaterial.
-   UNSURE: the comparisons [8 + val.size() > len] are done in unsigned long arithmetic in C++;
+   order is immaterial. *)
+(* UNSURE: the comparisons [8 + val.size() > len] are done in unsigned long arithmetic in C++;
    here they are done in N without wrap-around.  They differ only for a payload of at least
    2^64-8 bytes, i.e. never for a file that fits a 64-bit address space. *)
 Fixpoint read_map_entries (fuel : nat) (len : N) (b : bytes)
@@ -321,12 +326,14 @@ Definition read_val (kind : N) (b : bytes) : option (cval * bytes) :=
      - 8 or more bytes left: an attribute type was read, everything after it must be complete,
        a truncation anywhere later invalidates the object.
    A failing read that is not at EOF (an I/O error) also invalidates the object; I/O errors are
-   not modelled.
-   UNSURE: if some C library set the EOF indicator already on a read that consumed exactly the last
+   not modelled. *)
+(* UNSURE: if some C library set the EOF indicator already on a read that consumed exactly the last
    byte, the loop would end one iteration earlier with the same result, so the model does not
-   depend on it (glibc and musl only set it on a read that returns 0 bytes).
-
-   Attributes are returned in FILE order; the C++ stores them with attributes[type] = new ..., i.e.
+   depend on it (glibc and musl only set it on a read that returns 0 bytes).  The acceptance
+   rule was checked against the /repo build (glibc) on a 777-byte object file: cuts 0..7 bytes
+   past an attribute boundary and up to 7 appended stray bytes load, cuts 8 or more bytes into
+   an attribute and 8 appended bytes do not (see real_file in CodecFacts.v). *)
+(* Attributes are returned in FILE order; the C++ stores them with attributes[type] = new ..., i.e.
    for a repeated type the LAST one wins (see [norm_last]).  [fuel] bounds the number of
    attributes (each consumes at least 16 bytes). *)
 Fixpoint decode_attrs (fuel : nat) (b : bytes) : option cobj :=
